@@ -2,6 +2,7 @@
 package main
 
 import (
+	"encoding/json"
 	"flag"
 	"fmt"
 	"os"
@@ -63,6 +64,22 @@ func main() {
 	if *list {
 		ids := fw.IDs()
 		sort.Strings(ids)
+		if *asJSON {
+			type ph struct {
+				Name         string `json:"name"`
+				Space        string `json:"space"`
+				ThoroughOnly bool   `json:"thorough_only,omitempty"`
+			}
+			out := map[string][]ph{}
+			for _, id := range ids {
+				for _, p := range fw.Lookup(id).Phases {
+					out[id] = append(out[id], ph{p.Name, p.Space, p.ThoroughOnly})
+				}
+			}
+			b, _ := json.MarshalIndent(out, "", " ")
+			fmt.Println(string(b))
+			return
+		}
 		for _, id := range ids {
 			fmt.Println(id)
 		}
